@@ -97,6 +97,32 @@ type SimAPI struct {
 	Binds    []string // every applied pods/binding create
 	// batch: calls recorded while a concurrent phase is running are sorted canonically on flush
 	batch []Call
+	// Dead: client incarnations ("scheduler#2") whose process has crashed
+	Dead map[string]bool
+}
+
+// swallow: answer a call of a dead process without applying anything.
+func (s *SimAPI) swallow(a k8stesting.Action) (bool, runtime.Object, error) {
+	switch x := a.(type) {
+	case k8stesting.CreateActionImpl:
+		return true, x.GetObject(), nil
+	case k8stesting.UpdateActionImpl:
+		return true, x.GetObject(), nil
+	case k8stesting.PatchActionImpl:
+		if cur, err := s.Tracker.Get(x.GetResource(), x.GetNamespace(), x.GetName()); err == nil {
+			return true, cur, nil
+		}
+		return true, nil, apierrors.NewNotFound(x.GetResource().GroupResource(), x.GetName())
+	}
+	return true, nil, nil
+}
+
+// baseActor strips the incarnation suffix: "scheduler#2" -> "scheduler".
+func baseActor(a string) string {
+	if i := strings.IndexByte(a, '#'); i >= 0 {
+		return a[:i]
+	}
+	return a
 }
 
 type watchRec struct {
@@ -129,7 +155,7 @@ func NewSimAPI(objs []runtime.Object) *SimAPI {
 			panic(fmt.Sprintf("tracker add %T: %v", o, err))
 		}
 	}
-	return &SimAPI{Tracker: tr, perKey: map[string]int{}}
+	return &SimAPI{Tracker: tr, perKey: map[string]int{}, Dead: map[string]bool{}}
 }
 
 func isMutating(verb string) bool {
@@ -215,7 +241,15 @@ func (s *SimAPI) install(f *k8stesting.Fake, actor string) {
 			return objReact(a)
 		}
 		gvr := a.GetResource()
-		c := Call{Actor: actor, Verb: verb, Resource: gvr.Resource, Sub: a.GetSubresource(), NS: a.GetNamespace(), Name: actionName(a)}
+		c := Call{Actor: baseActor(actor), Verb: verb, Resource: gvr.Resource, Sub: a.GetSubresource(), NS: a.GetNamespace(), Name: actionName(a)}
+		s.mu.Lock()
+		dead := s.Dead[actor]
+		s.mu.Unlock()
+		if dead {
+			// the process this client belonged to has crashed: whatever its leftover goroutines still try has no effect
+			// (and must not keep them busy: a retry loop of a dead process does not exist)
+			return s.swallow(a)
+		}
 		s.mu.Lock()
 		c.Cycle = s.Cycle
 		k := c.Key()
@@ -226,6 +260,11 @@ func (s *SimAPI) install(f *k8stesting.Fake, actor string) {
 		kind := ""
 		if dec != nil {
 			kind = dec(&c, nth)
+		}
+		if kind == "swallow" { // the process died at this point: the call never reaches the API server
+			c.Outcome = "lost:crash"
+			s.record(c)
+			return s.swallow(a)
 		}
 		if kind != "" && !strings.HasPrefix(kind, "after:") {
 			c.Outcome = "fail-before:" + kind
